@@ -714,12 +714,22 @@ func CreateUpdateMsgFromPaths(pathList []*Path, options ...*bgp.MarshallingOptio
 	// Since sendMessageloop coalesces outgoing BGP UPDATE messages and
 	// the packers emit withdrawals before announcements, we should keep only the
 	// last action for each NLRI/path-id within one packing pass.
+	// Without ADD-PATH on the session the peer knows a route by its NLRI alone:
+	// paths of one destination that differ only in their local identifier are
+	// versions of the same route, and only the last one counts.
+	key := func(path *Path) PathLocalKey {
+		k := path.GetLocalKey()
+		if !bgp.IsAddPathEnabled(false, path.GetFamily(), options) {
+			k.Id = 0
+		}
+		return k
+	}
 	last := make(map[PathLocalKey]*Path, len(pathList))
 	for _, path := range pathList {
 		if path == nil || path.IsEOR() {
 			continue
 		}
-		last[path.GetLocalKey()] = path
+		last[key(path)] = path
 	}
 
 	m := make(map[bgp.Family]packerInterface)
@@ -739,7 +749,7 @@ func CreateUpdateMsgFromPaths(pathList []*Path, options ...*bgp.MarshallingOptio
 			add(path)
 			continue
 		}
-		if last[path.GetLocalKey()] != path {
+		if last[key(path)] != path {
 			continue
 		}
 		add(path)
